@@ -25,6 +25,7 @@ static void setup() { using namespace sc; if (!g_shapes.empty()) return;
     { Mesh m = icosphere(2); for (size_t i = 0; i < m.nv(); i++) if (m.pos[3*i+2] > 0.6) m.pos[3*i+2] = 1.2 - m.pos[3*i+2]; add(m, "dented_sphere"); }
     { Mesh m = subdivide_sphere(subdivide_sphere(octahedron(), ""), ""); add(m, "octasphere66_plane_through_vertices"); }
     add(subdivide_flat(subdivide_flat(cube12(), ""), ""), "cube_subdivided_194");
+    add(translated(icosphere(1), 1048576.5, -524288.25, 2097152), "icosphere42_a_million_sizes_from_origin");   // the signs of volumes taken about the coordinate origin are rounding noise here
 }
 static const double AX[16][3] = {{1, 0, 0}, {-1, 0, 0}, {0, 1, 0}, {0, -1, 0}, {0, 0, 1}, {0, 0, -1}, {0.7071067811865476, 0.7071067811865476, 0}, {0.5773502691896258, 0.5773502691896258, 0.5773502691896258}, {0.2672612419124244, -0.5345224838248488, 0.8017837257372732}, {0, 0, 0}, {0.000764842059810797, 0.0006442175798680818, 0.9999995000000417}, {-0.0005048460204588443, 0.0008632092227806532, -0.9999995000000417}, {-9.364566872906404e-07, -3.507832276895614e-07, 0.9999999999995001}, {1.865123694225447e-07, -9.82452612624169e-07, -0.9999999999995001}, {0.9999995000000417, 0.000764842059810797, 0.0006442175798680818}, {-5.048461045997734e-07, -0.9999999999995, 8.632093666487298e-07}};   // last = the real longest axis
 static const char* AXN[16] = {"+x", "-x", "+y", "-y", "+z", "-z", "(1,1,0)", "(1,1,1)", "generic", "longest_axis", "+z tilted by 0.001 rad", "-z tilted by 0.001 rad", "+z tilted by 1e-06 rad", "-z tilted by 1e-06 rad", "+x tilted by 0.001 rad", "-y tilted by 1e-06 rad"};   // index 9 = the real longest axis; 10..15 = almost axis-aligned
